@@ -14,12 +14,14 @@ IsEvent(e) == l <= Len(Trace) /\ Trace[l].ev = e /\ l' = l + 1
 
 TNew   == IsEvent("new") /\ len' = 0 /\ blocks' = 0 /\ tail' = 0 /\ hist' = <<>>
 \* (the driver overwrites its buffer right after Write returns: the object must have copied what it keeps)
-TWrite == IsEvent("write") /\ T.ret = T.n /\ T.err = FALSE /\ T.caller_intact /\ Write(T.n)
+\* (results_intact: every slice an earlier Sum returned still holds the value it held when it was returned - results are
+\* values of the caller, not windows into the object)
+TWrite == IsEvent("write") /\ T.ret = T.n /\ T.err = FALSE /\ T.caller_intact /\ T.results_intact /\ Write(T.n)
 \* the slice returned by Sum is the caller's prefix followed by the digest of the stream so far
 TSum   == /\ IsEvent("sum") /\ Sum(T.p, T.c)
           /\ T.out = Prefix(T.p) \o DT(len)
-          /\ T.prefix_intact
-TReset == IsEvent("reset") /\ Reset
+          /\ T.prefix_intact /\ T.results_intact
+TReset == IsEvent("reset") /\ T.results_intact /\ Reset
 \* Sm3Sum(Msg(n)) one-shot
 TOne   == IsEvent("oneshot") /\ T.out = DT(T.n) /\ UNCHANGED vars
 TSize  == IsEvent("size") /\ T.size = 32 /\ T.bs = 64 /\ UNCHANGED vars
